@@ -111,7 +111,8 @@ def run_rows(pid, spec, prefixes, ctxs=CTXS_DEFAULT, regs_fn=None, prep_kw=None,
         ctxkey = ctxs[rng.randrange(len(ctxs))]
         ctx = ls.ctx(ctxkey)
         ns = rng.randrange(2) if ctx.cfg['have_security_ext'] else 0
-        mode = rng.choice(ctx.legal_modes(ns))
+        lm = ctx.legal_modes(ns)
+        mode = rng.choice(lm + [m for m in lm if m in ('mon', 'hyp')] * 2)       # Monitor and Hyp mode three times as often
         itpos = 'out' if kind == 'arm' else (itpos_fn(rng) if itpos_fn else rng.choice(['out', 'out', 'mid', 'last']))
         regs = regs_fn(rng) if regs_fn else [M.rand32(rng) for _ in range(15)]
         kw = dict(prep_kw(rng) if prep_kw else {})
@@ -131,14 +132,15 @@ def run_rows(pid, spec, prefixes, ctxs=CTXS_DEFAULT, regs_fn=None, prep_kw=None,
             ls.bump('addresses_solved_' + desc.get('address_solved', 'not'))
         if rng.random() < 0.25:
             control_noise(ctx, rng, desc)
-        if mode == 'mon' and rng.random() < 0.25:
+        if mode == 'mon' and rng.random() < 0.45:
             ctx.cpu.registers.scr.ns = 1      # Monitor mode with SCR.NS = 1 (as set before a return to Non-secure state)
             desc['ns'] = 1
             desc['mon_ns1'] = True
             if rng.random() < 0.7:
                 # ... and the SPSR may then name any mode that is legal in Non-secure state, Hyp included
                 r_ = ctx.cpu.registers
-                r_.spsr_mon = (r_.spsr_mon & ~0x1F) | scen.mode_word(rng.choice(ctx.legal_modes(1)))
+                tm = 'hyp' if (ctx.cfg['have_virt_ext'] and rng.random() < 0.4) else rng.choice(ctx.legal_modes(1))
+                r_.spsr_mon = (r_.spsr_mon & ~0x1F) | scen.mode_word(tm)
         if after:
             after(ctx, rng, desc)
         ls.res['sets']['contexts'].add('%s/%s/%s' % (ctxkey[0], mode, kind))
